@@ -257,13 +257,20 @@ def gen_sort(rng, n, tier):
     out = []
     for _ in range(n):
         k = rng.randint(0, 12)
-        out.append({'ts': [rng.randint(0, 8) * 1000 + rng.choice([0, 0, 500]) for _ in range(k)]})
+        ts = [rng.randint(0, 8) * 1000 + rng.choice([0, 0, 500]) for _ in range(k)]
+        if rng.random() < 0.3:                      # instants spread over decades (both sides of 2000, month and year ends) instead of a few seconds
+            Y = [0, 86400 * 365, 946684800 - 2, 946684800, 946684801, 1514764800, 1546300800 + 86400 * 58, 1893456000, 3124224000 - 1]
+            ts = [rng.choice(Y) * 1000 + rng.choice([0, 0, 500, 1000, 61000]) for _ in range(k)]
+        out.append({'ts': ts, 'how': rng.choice(['sort', 'sort', 'radix'])})      # Track.sort() or Track.sortRadix(): two public ways to the same contract
     return out
 
 
 def run_sort(case):
     tr = mk(case['ts'])
-    tr.sort()
+    if case.get('how') == 'radix':
+        tr.sortRadix()
+    else:
+        tr.sort()
     return {'ids': ids_of(tr), 'ts': tms(tr), 'feat': [float(v) for v in tr['f']] if tr.size() else [], 'names': tr.getListAnalyticalFeatures()}
 
 
